@@ -27,9 +27,8 @@ Proof. reflexivity. Qed.
 
 (* the generated matcher never runs out of the fuel parse_query supplies: for every input string *)
 Theorem main_never_out_of_fuel (s : str) :
-  parse_rule grammar (parse_fuel s) R_main s <> OutOfFuel.
+  Peg.run grammar (parse_fuel s) (ECall R_main) ANonAtomic s 0 <> OutOfFuel.
 Proof.
-  unfold parse_rule.
   apply (run_fuel rname grammar rule_rank rule_nullable rank_bound rank_ok_G bounded_ok_G nullable_ok_G skip_ok_G ws_atomic_G
            (parse_fuel s) (ECall R_main) ANonAtomic s 0 (length s) (le_n _)).
   - vm_compute. reflexivity.
@@ -41,8 +40,8 @@ Qed.
 Theorem parse_never_out_of_fuel (s : str) : parse_query s <> POutOfFuel.
 Proof.
   unfold parse_query, parse_model. destruct (negb (str_eqb s (trim_blank s))); [discriminate|].
-  pose proof (main_never_out_of_fuel s) as Hm.
-  destruct (parse_rule grammar (parse_fuel s) R_main s) as [| |rest p toks]; [discriminate|contradiction|].
+  pose proof (main_never_out_of_fuel s) as Hm. unfold parse_rule.
+  destruct (Peg.run grammar (parse_fuel s) (ECall R_main) ANonAtomic s 0) as [| |rest p toks]; [discriminate|contradiction|].
   destruct toks as [|m ts]; [discriminate|]. destruct (next_down m); [|discriminate].
   destruct (b_jp_query s (parse_fuel s) p0); [|discriminate].
   match goal with |- context [if ?c then _ else _] => destruct c end; discriminate.
